@@ -16,9 +16,9 @@ from common import Check, Infra, harness_json, validate_chunks, workdir, tlc_mus
 
 # (start symbol, free start choice, budget quick, budget thorough)
 STARTS = [("E12", False, 2, 3), ("Type", False, 2, 3), ("QueryStatement", False, 2, 3), ("QS_From", False, 2, 3), ("QS_Suffix", True, 2, 3),
-          ("DML", True, 1, 2), ("Call", False, 1, 2), ("DDL", True, 1, 2),
+          ("DML", True, 1, 2), ("Call", False, 1, 2), ("DDL", True, 2, 3),
           ("FE_Arg", False, 1, 2), ("FE_Mod", False, 1, 2), ("FD_Col", False, 1, 2), ("FD_Seq", False, 1, 2), ("FD_Ident", False, 1, 2), ("FD_PG", False, 1, 2),
-          ("FD_PGProps", False, 1, 2), ("FM_Return", False, 1, 2)]
+          ("FD_PGProps", False, 1, 2), ("FD_CS", False, 1, 2), ("FM_Return", False, 1, 2)]
 PROFILES = {"quick": 4, "thorough": 7}
 # C07: operator trees
 C07 = {"quick": dict(budget=3), "thorough": dict(budget=4)}
